@@ -1095,6 +1095,36 @@ class Interp:
             v = v.copy(sym=Poly.atom(f"getter<{base.obj.oid}.{prop.name}>"))
         return v
 
+    def field_summary(self, cls, attr):
+        store = self.index.__dict__.setdefault("_field_summaries", {})
+        key = (cls.name, attr)
+        if key in store:
+            return store[key]
+        store[key] = None          # while it is being computed (and for recursive reads): unknown
+        sites = []
+        for c in cls.mro:
+            fns = list(c.methods.values()) + [x for p in c.props.values() for x in (p.getter, p.setter) if x]
+            for f in fns:
+                for n in ast.walk(f.node):
+                    if isinstance(n, ast.Assign) and any(isinstance(t, ast.Attribute) and t.attr == attr and isinstance(t.value, ast.Name)
+                                                         and t.value.id == "self" for t in n.targets):
+                        if not (isinstance(n.value, ast.Constant) and n.value.value is None):
+                            sites.append(f)
+                            break
+        acc = None
+        for f in sites[:4]:
+            try:
+                sub = Interp(self.index, config=dict(self.config))
+                r = sub.run_entry(f, cls)
+            except (RecursionError, AnalysisError):
+                continue
+            for e in r["events"]:
+                if e.type == "write" and e.loc == ("self", attr) and e.mode == "rebind" and e.rhs is not None \
+                        and not (e.rhs.has_const() and e.rhs.const is None):
+                    acc = join_vals(acc, e.rhs)
+        store[key] = acc
+        return acc
+
     def read_field(self, base: Val, attr, st, node) -> Val:
         obj = base.obj
         loc = (obj.oid, attr)
@@ -1103,6 +1133,12 @@ class Interp:
         comp = self.composite_of(obj.cls, attr)
         if comp is not None:
             return Val(kind="obj", obj=ObjRef(comp, f"{obj.oid}.{attr}"), al=frozenset([loc]), deps=frozenset([loc]), born=0)
+        if attr not in ATTR:
+            # an attribute the tables do not know (a memo, a lazily filled cache): field-based abstraction - it holds what
+            # the class stores into it (join over the store sites, each evaluated in the function that contains it)
+            summ = self.field_summary(obj.cls, attr)
+            if summ is not None:
+                return summ.copy(al=summ.al | {loc}, deps=summ.deps | {loc}, born=self.time, const=NOCONST)
         scalar = kind in ("float", "int", "bool")
         locs = [loc]
         sh = st.comp.get("__shallow")
